@@ -421,8 +421,8 @@ def run(ctx):
         random_histories(rig, [(6, 1, 2, 4000, 3, 60), (8, 2, 2, 3500, 4, 80), (12, 2, 3, 2500, 5, 45)])
     else:
         replay_edges(rig, "MC_RingBuf_edges.cfg", "every edge (ring 6, <= 5 bytes written, round counter from RoundMod-2)")
-        replay_behaviours(rig, "MC_RingBuf_sim.cfg", 1500, 80, "simulated behaviours")
-        replay_behaviours(rig, "MC_RingBuf_sim8.cfg", 800, 80, "simulated behaviours (ring 8 / min block 2)")
+        replay_behaviours(rig, "MC_RingBuf_sim.cfg", 3000, 80, "simulated behaviours")
+        replay_behaviours(rig, "MC_RingBuf_sim8.cfg", 1500, 80, "simulated behaviours (ring 8 / min block 2)")
         plan = []
         for i, (size, minb) in enumerate([(6, 1), (8, 2), (8, 1), (6, 2), (7, 3), (12, 2), (5, 1), (9, 4), (16, 2), (32, 4)]):
             plan.append((size, minb, 1 + i % 3, 10000, max(minb, min(size, minb + 1 + i % 4)), [30, 50, 70, 85, 92][i % 5]))
